@@ -411,10 +411,36 @@ func jsonpbOneofOrder(repo string) string {
 
 // scanFuncValues: a clock / random / environment / process-value source used as a VALUE (not called on the spot).
 func scanFuncValues(p *packages.Package, fd *ast.FuncDecl, clocks clockSet, repo string) []site {
+	return scanValuesIn(p, fd.Body, funcName(fd), clocks, repo)
+}
+
+// scanVarValues: the same for the initialisers of package-level variables (`var now = time.Now`).
+func scanVarValues(p *packages.Package, gd *ast.GenDecl, clocks clockSet, repo string) []site {
+	if gd.Tok != token.VAR {
+		return nil
+	}
+	var res []site
+	for _, sp := range gd.Specs {
+		vs, ok := sp.(*ast.ValueSpec)
+		if !ok {
+			continue
+		}
+		name := "var"
+		if len(vs.Names) > 0 {
+			name = "var " + vs.Names[0].Name
+		}
+		for _, v := range vs.Values {
+			res = append(res, scanValuesIn(p, v, name, clocks, repo)...)
+		}
+	}
+	return res
+}
+
+func scanValuesIn(p *packages.Package, root ast.Node, fname string, clocks clockSet, repo string) []site {
 	var res []site
 	rel := strings.TrimPrefix(p.PkgPath, "github.com/functionx/fx-core/v8/")
 	called := map[ast.Expr]bool{}
-	ast.Inspect(fd.Body, func(n ast.Node) bool {
+	ast.Inspect(root, func(n ast.Node) bool {
 		if c, ok := n.(*ast.CallExpr); ok {
 			f := c.Fun
 			for {
@@ -467,10 +493,10 @@ func scanFuncValues(p *packages.Package, fd *ast.FuncDecl, clocks clockSet, repo
 		seen[kind+key] = true
 		pos := p.Fset.Position(e.Pos())
 		r, _ := filepath.Rel(repo, pos.Filename)
-		res = append(res, site{Pkg: rel, Func: funcName(fd), Kind: kind, Expr: key + " (function value)", Where: r + ":" + itoa(pos.Line)})
+		res = append(res, site{Pkg: rel, Func: fname, Kind: kind, Expr: key + " (function value)", Where: r + ":" + itoa(pos.Line)})
 	}
 	skip := map[*ast.Ident]bool{}
-	ast.Inspect(fd.Body, func(n ast.Node) bool {
+	ast.Inspect(root, func(n ast.Node) bool {
 		switch x := n.(type) {
 		case *ast.SelectorExpr:
 			skip[x.Sel] = true
